@@ -3,6 +3,8 @@
 // Input  : the workflow template as an S-expression (grammar in lean/Driver/C15.lean):
 //
 //	role  := (A hdr role*) | (T hdr (field*) crit) | (C hdr (field*) crit) | (I range var role)
+//	       | (N hdr field doc*)    include role: header at the include site, `include:` expression, the
+//	                               workflow documents this site can name    doc := (D file hdr role*)
 //	hdr   := (name enabled defaults vars uvars constraints binds connects)
 //	field := ((t text) | (s se) | (b be))*        range := (R begin end) | (L listfield)
 //
@@ -18,7 +20,10 @@
 // (all read through the role's exported MarshalYAML), the consolidated variable stack, and
 // for tasks/calls class|func, return, timeout, trigger, await, critical.
 //
-// `include` roles are left out: they need the repository manager (git checkout).
+// Include roles (include.go): every include site gets the documents it can name as YAML documents
+// of their own in an in-memory workflow repository; the real ProcessTemplates is handed a
+// LoadSubworkflowFunc that does what the closure in workflow.Load does (fresh root, yaml.Unmarshal,
+// setParent(include role)) reading from that map instead of the repository manager's checkout.
 package c15
 
 import (
@@ -128,8 +133,15 @@ func hdrYAML(h *sx.Node, ind string, b *strings.Builder) {
 	}
 }
 
+// renderer: the YAML of one case — the workflow itself plus `subs`, the documents of the in-memory
+// workflow repository (file name -> YAML), one group per include site (see include.go).
+type renderer struct {
+	subs  map[string]string
+	sites int
+}
+
 // roleYAML writes one role; `first` is the prefix of its first line ("- " inside a list).
-func roleYAML(n *sx.Node, ind string, inList bool, b *strings.Builder) {
+func (y *renderer) roleYAML(n *sx.Node, ind string, inList bool, b *strings.Builder) {
 	pre, cont := ind, ind
 	if inList {
 		pre, cont = ind+"- ", ind+"  "
@@ -159,8 +171,10 @@ func roleYAML(n *sx.Node, ind string, inList bool, b *strings.Builder) {
 		}
 		fmt.Fprintf(b, "%sroles:\n", cont)
 		for i := 2; i < body.Len(); i++ {
-			roleYAML(body.At(i), cont+"  ", true, b)
+			y.roleYAML(body.At(i), cont+"  ", true, b)
 		}
+	case "N":
+		y.includeYAML(body, cont, b)
 	case "T":
 		x := body.At(2)
 		fmt.Fprintf(b, "%stask:\n%s  load: %s\n", cont, cont, yq(fieldText(x.At(0))))
@@ -183,10 +197,11 @@ func traitsYAML(x *sx.Node, off int, cont string, crit bool, b *strings.Builder)
 	fmt.Fprintf(b, "%s  critical: %v\n", cont, crit)
 }
 
-func toYAML(root *sx.Node) string {
+func toYAML(root *sx.Node) (string, map[string]string) {
 	var b strings.Builder
-	roleYAML(root, "", false, &b)
-	return b.String()
+	y := &renderer{subs: map[string]string{}}
+	y.roleYAML(root, "", false, &b)
+	return b.String(), y.subs
 }
 
 // ---- running the real code ---------------------------------------------------------------
@@ -238,7 +253,14 @@ func dumpRole(r workflow.Role) (*sx.Node, error) {
 	if !ok {
 		return nil, fmt.Errorf("role %T has no MarshalYAML", r)
 	}
-	raw, err := ms.MarshalYAML()
+	var raw interface{}
+	var err error
+	if isIncludeRole(r) {
+		// includeRole.MarshalYAML answers (nil, nil): read what roleBase.MarshalYAML would show
+		raw, err = includeRoleFields(r)
+	} else {
+		raw, err = ms.MarshalYAML()
+	}
 	if err != nil {
 		return nil, err
 	}
@@ -303,7 +325,7 @@ func dumpRole(r workflow.Role) (*sx.Node, error) {
 
 var theRepo = repos.Repo{HostingSite: "h", Path: "p", RepoName: "r", Hash: "x", Revision: "x", DefaultRevision: "x", Protocol: "local"}
 
-func runOnce(root *sx.Node, doc string, setting int) (string, error) {
+func runOnce(root *sx.Node, doc string, subs map[string]string, setting int) (string, error) {
 	for i, k := range switchKeys {
 		viper.Set(k, setting&(1<<i) != 0)
 	}
@@ -312,7 +334,13 @@ func runOnce(root *sx.Node, doc string, setting int) (string, error) {
 		return "", err
 	}
 	repo := theRepo
-	if err := r.ProcessTemplates(&repo, nil, map[string]string{}); err != nil {
+	// always a loader (an include role that can name no document still asks for one)
+	var lerr error
+	loader := subworkflowLoader(subs, &repo, &lerr)
+	if err := r.ProcessTemplates(&repo, loader, map[string]string{}); err != nil {
+		if lerr != nil { // trouble of the harness's own loader (not "no such document"): no verdict
+			return "", lerr
+		}
 		return "err", nil
 	}
 	if !r.IsEnabled() {
@@ -336,11 +364,14 @@ func runImpl(input string) (string, error) {
 	if !viper.IsSet("config_endpoint") {
 		viper.Set("config_endpoint", "mock://")
 	}
-	doc := toYAML(in)
+	if err := validIncludes(in); err != nil {
+		return "", err
+	}
+	doc, subs := toYAML(in)
 	var outs [8]string
 	same := true
 	for s := 0; s < 8; s++ {
-		o, err := runOnce(in, doc, s)
+		o, err := runOnce(in, doc, subs, s)
 		if err != nil {
 			return "", err
 		}
@@ -362,24 +393,30 @@ func init() {
 		RunImpl:    runImpl,
 		Nontrivial: nontrivial,
 		Rule: "random workflow templates rendered to YAML and loaded through the package's unmarshallers: aggregator / iterator " +
-			"(begin-end and JSON-list ranges, literal or from variables) / task / call roles nested to depth <= 4, <= ~25 roles, " +
+			"(begin-end and JSON-list ranges, literal or from variables) / task / call / include roles nested to depth <= 4, <= ~25 roles, " +
 			"enabled fields (literal spellings, {{ var }}, ==, !=, &&, ||, !) over defaults/vars/user vars/iteration variables with " +
 			"shadowing across levels, templated names, variables, constraints, bind/connect channels and hook traits, ~12% cases " +
 			"with a deliberate template error (unknown variable, non-integer bound, malformed list); plus a stream (1 in 6 cases, tag " +
 			"stream:nested) of iterators nested 2-3 deep inside iterator templates whose inner begin/end/range refers to the enclosing " +
 			"iteration variable(s) or to variables the generated child sets from them (each generated child must evaluate the inner " +
-			"range in its own stack; the same shapes also occur in the general stream); every case is run under ALL 8 " +
+			"range in its own stack; the same shapes also occur in the general stream); include roles served from an in-memory " +
+			"workflow repository through a LoadSubworkflowFunc that does what workflow.Load's closure does: in the general stream (about " +
+			"1 role in 9) and in a dedicated stream (1 in 6 cases, tag stream:include) plus fixed scenarios (tags fixed:incl-*): plain, " +
+			"under iterators with the include expression and the included tree (names, classes, variables, nested iterator ranges, " +
+			"enabled) referring to the iteration variable, the same name defined further up, nested includes, enabled expressions on " +
+			"the include role and inside the included tree, template errors inside the included tree, unknown documents, included " +
+			"roots that end up disabled or empty; every case is run under ALL 8 " +
 			"settings of the three concurrency switches and the canonical dump of the whole tree is compared with the Lean model " +
 			"and across settings; non-trivial = >= 4 template roles and (an iterator or an enabled field with a {{ }} tag); distinct by input text",
 		Shrink:  shrinkCands,
 		Workers: 1, // viper is process-global
 		TrustedBase: []string{
-			"harness/props/c15 (template -> YAML renderer, tree dump through GetRoles/MarshalYAML/ConsolidatedVarStack)",
+			"harness/props/c15 (template -> YAML renderer, tree dump through GetRoles/MarshalYAML/ConsolidatedVarStack; for include roles, whose MarshalYAML is empty, the same roleBase fields read by reflection; in-memory LoadSubworkflowFunc)",
 			"gopkg.in/yaml.v3 unmarshalling of the role union", "repos.Repo{h/p/r@x} as the workflow repository (task class resolution)",
 		},
 		Assumptions: []string{
 			"template expressions stay inside the modelled fragment (text, {{ var }}, string literals, ==, !=, &&, ||, !, true/false; ASCII); the rest of the expr engine, This()/Parent()/Up(), config access functions and plugins are unmodelled",
-			"include roles are not generated (they need the repository manager)",
+			"include roles: the repository manager / git checkout behind workflow.Load's LoadSubworkflowFunc is replaced by an in-memory map of YAML documents (same steps on the loaded root); include expressions evaluate to plain file names (no '/', no '@'), every include site has its own documents",
 			"user variables are literal strings set on the root with SetRuntimeVars before ProcessTemplates",
 			"the Go scheduler explores only some interleavings per run; the all-schedules claim rests on the Lean theorem plus the go/ast facts about what the goroutines write",
 		},
